@@ -1,0 +1,25 @@
+//! Verification hooks (only compiled with `--cfg datacake_verif`).
+use std::cell::Cell;
+
+use rand::rngs::{StdRng, ThreadRng};
+use rand::{Rng, SeedableRng};
+
+thread_local! {
+    static RNG_SEED: Cell<Option<u64>> = Cell::new(None);
+}
+
+/// Makes the random data centre choice of the node selector on this thread a function of
+/// `seed` (each call advances the seed); `None` restores the thread RNG.
+pub fn set_rng_seed(seed: Option<u64>) {
+    RNG_SEED.with(|s| s.set(seed));
+}
+
+pub(crate) fn rng(fallback: &mut ThreadRng) -> StdRng {
+    RNG_SEED.with(|s| match s.get() {
+        Some(seed) => {
+            s.set(Some(seed.wrapping_mul(6364136223846793005).wrapping_add(1442695040888963407)));
+            StdRng::seed_from_u64(seed)
+        },
+        None => StdRng::seed_from_u64(fallback.gen()),
+    })
+}
